@@ -376,3 +376,36 @@ Proof.
   unfold view in *. cbn [flush fb_pages fb_psz fb_disk] in *.
   destruct (znth None (fb_pages b) (j / fb_psz b)) as [pg|] eqn:E; [reflexivity|exact Hf].
 Qed.
+
+(** * any sequence (hence any interleaving) of reads *)
+Fixpoint run_reads (b : fbuf) (rs : list (Z * Z)) : list (option (list Z)) :=
+  match rs with
+  | [] => []
+  | (off, len) :: r =>
+    match read_at b off len with
+    | IoOk (b', data) => Some data :: run_reads b' r
+    | IoErr => None :: run_reads b r
+    end
+  end.
+
+Definition read_alone (b : fbuf) (r : Z * Z) : option (list Z) :=
+  match read_at b (fst r) (snd r) with IoOk (_, data) => Some data | IoErr => None end.
+
+(** every read of the sequence returns what it returns when it is the only read issued *)
+Theorem run_reads_independent : forall rs b, fb_inv b -> Forall (fun r => 0 < snd r) rs ->
+  run_reads b rs = map (read_alone b) rs.
+Proof.
+  induction rs as [|[off len] r IH]; intros b Hinv Hpos; [reflexivity|].
+  inversion Hpos as [|? ? Hl Hr]; subst. cbn [snd] in Hl. cbn [run_reads map].
+  pose proof (read_at_spec b off len Hinv Hl) as Hs.
+  unfold read_alone at 1. cbn [fst snd].
+  destruct (read_at b off len) as [[b' data]|] eqn:E.
+  - destruct Hs as (Hinv' & Hdisk & Hdirty & Hview & Hdata). f_equal.
+    rewrite (IH b' Hinv' Hr). apply map_ext_in. intros [o l] Hin.
+    rewrite Forall_forall in Hr. specialize (Hr _ Hin). cbn [snd] in Hr.
+    unfold read_alone. cbn [fst snd].
+    pose proof (read_after_read b off len o l b' data Hinv Hl Hr E) as Hrr.
+    destruct (read_at b o l) as [[? d2]|]; destruct (read_at b' o l) as [[? d2']|]; try contradiction; congruence.
+  - f_equal. apply IH; assumption.
+Qed.
+Print Assumptions run_reads_independent.
